@@ -17,8 +17,18 @@ CHECKS = {
          "Every operation x every argument in the boundary-complete domains (indexes 0..=N+1 and usize::MAX, all 9 RangeBounds shapes) from every reachable state incl. capacity 0: panics iff documented, buffer image and ledger unchanged after a documented panic, watchdog on every call.", "§4 C11"),
  "C12": ("model_checking", "exhaustive enumeration of constructors/conversions over source lengths and layouts",
          "new/default/boxed empty; From<[T;M]> and from_iter for every M in 0..=2N+1 keep the last N and destroy the rest exactly once; clone/to_vec/clone_from from every layout to every layout produce element-wise clones, source image untouched, ownership independent in both drop orders; into_iter().collect returns the original elements.", "§4 C12"),
+ "C13": ("model_checking", "exhaustive enumeration of all pairs of (capacity, layout, contents) over a small value alphabet",
+         "All ordered pairs of buffers over capacities 0..=4/5, every rotation, every contents over {0,1,NaN-like}: ==/!=/cross-type/partial_cmp/cmp/hash and all slice/array/reference forms agree with the same operations on plain slices, so every split of the left operand meets every split of the right; Debug equals the slice's under 7 flag combinations.", "§4 C13"),
+ "C14": ("model_checking", "explicit-state BFS of the real byte-I/O impls to a fixpoint vs. Vec<u8> model",
+         "Fixpoint over write/read/fill_buf/consume/flush (+push/pop) with all sizes 0..=2N+1 / 0..=N+2 / usize::MAX on CircularBuffer<N,u8>, N in 0..=5/8: counts, delivered bytes, untouched destination tail, resulting contents; never Err, never panics.", "§4 C14"),
+ "C16": ("model_checking", "differential exploration: every (state, I/O action) through std::io and through embedded-io(-async), three feature builds",
+         "From every state of C14's fixpoint space every I/O action is run through std::io and through the embedded trait families compiled into the build ({embedded-io}, {embedded-io-async}, {both}); returned values, contents and memory image must be identical, results Ok, async futures Ready on the first poll. A configuration that does not build is reported as a violation.", "§4 C16"),
  "C17": ("model_checking", "explicit-state BFS with an allocation monitor, per feature configuration",
          "The C01 transition relation plus all observers, executed under a counting global allocator in three builds (no features, alloc, std): zero allocations inside any non-panicking crate call except boxed()/to_vec().", "§4 C17"),
+ "C18": ("model_checking", "differential transcript of complete case spaces between nightly/default and nightly/unstable builds",
+         "The nightly/default build enumerates histories (BFS) and writes one transcript line per (history, action, fault point) over the C01-C12 alphabets incl. the fault spaces; the nightly/unstable build replays the same histories; transcripts must be identical line by line. stable/default is a toolchain-drift control.", "§4 C18"),
+ "C19": ("model_checking", "exhaustive depth-bounded enumeration of action sequences (no state merging) at extreme capacities with a ZST",
+         "12 capacities incl. usize::MAX and neighbours of 2^63/2^32, drop-counting ZST, all sequences of depth 3/4(/5 reduced) after front-positioning prefixes near 0 and near N: no overflow/div-by-zero/bounds panic, len/returns/is_full/live count = model; overflow checks on and off (thorough).", "§4 C19"),
  "C20": ("model_checking", "explicit-state BFS with a relocation monitor",
          "Every listed O(1) operation, remove and drain from every reachable state for capacities up to 8: number of surviving elements whose address changes is within the documented bound; make_contiguous relocates nothing when already contiguous.", "§4 C20"),
 
@@ -42,7 +52,7 @@ NOT_APPLICABLE = {
  "C15": "compile-time contracts (variance, borrows, const-ness, auto traits): decided by the type checker on witness programs, there is no execution/state/history to enumerate, so model checking does not apply (DESIGN §5).",
 }
 # properties whose checks are still being built (kept here so the manifest is valid at every commit)
-PENDING = {'C13': 'check under construction (pairwise comparison space)', 'C14': 'check under construction (byte I/O fixpoint)', 'C16': 'check under construction (embedded-io differential)', 'C18': 'check under construction (unstable-feature differential)', 'C19': 'check under construction (ZST / huge capacities)'}
+PENDING = {'C19': 'check under construction (ZST / huge capacities)'}
 
 def main():
     checks = []
